@@ -7,7 +7,7 @@ wt="/tmp/vfseed-$id-$$"
 git -C /repo worktree remove --force "$wt" >/dev/null 2>&1
 git -C /repo worktree add -q --detach "$wt" HEAD || exit 9
 git -C "$wt" apply "/verif/seeded/$id/patch.diff" || { git -C /repo worktree remove --force "$wt"; exit 9; }
-VF_REPO="$wt" ./run check "$prop" --tier "${TIER:-quick}" "$@" > "/verif/.work/seeded-$id.log" 2>&1
+VF_NO_RETRY=1 VF_REPO="$wt" ./run check "$prop" --tier "${TIER:-quick}" "$@" > "/verif/.work/seeded-$id.log" 2>&1
 rc=$?
 git -C /repo worktree remove --force "$wt"
 echo "seeded $id on $prop: exit $rc"
